@@ -189,3 +189,48 @@ func H_C12_earlyend() {
 	_, n = fx.s.GetMetric()
 	assert(n == 0 && vStopClosed(fx.stop), "the client stops once the last vBucket has ended for good")
 }
+
+// H_C12_earlytransient: a vBucket's stream ends with a TRANSIENT cause (its node
+// drops) right after its open request succeeded, while Open() is still opening
+// the other vBucket. It is reopened from its position and counted as streaming;
+// the client stops only after both have ended for good.
+func H_C12_earlytransient() {
+	setPreempt(1)
+	fx := vNewFixture(func() []uint16 { return []uint16{0, 1} })
+	fx.cl.high = [vTotalVB]uint64{^uint64(0), ^uint64(0), 0, 0}
+	cause := []error{gocbcore.ErrSocketClosed, gocbcore.ErrDCPStreamStateChanged, gocbcore.ErrDCPStreamTooSlow}[choose("cause", 3)]
+	fx.cl.openErr = func(vbID uint16, nth int) error {
+		if vbID == 0 && nth == 0 {
+			obs, _ := fx.s.observers.Load(0)
+			if nondetBool("inline") {
+				obs.End(models.DcpStreamEnd{VbID: 0}, cause)
+			} else {
+				spawnEnv(func() { obs.End(models.DcpStreamEnd{VbID: 0}, cause) })
+			}
+		}
+		return nil
+	}
+	fx.s.Open()
+	quiesce()
+	_, n := fx.s.GetMetric()
+	assert(n == 2, "a vBucket whose stream ended transiently during start-up still counts as streaming")
+	opens0 := 0
+	for _, c := range fx.cl.openCalls {
+		if c.vbID == 0 {
+			opens0++
+		}
+	}
+	assert(opens0 == 2, "it is requested again exactly once")
+	assert(!vStopClosed(fx.stop), "the client keeps running")
+	cover("early-transient-end")
+	o0, _ := fx.s.observers.Load(0)
+	o1, _ := fx.s.observers.Load(1)
+	o1.End(models.DcpStreamEnd{VbID: 1}, nil)
+	quiesce()
+	_, n = fx.s.GetMetric()
+	assert(n == 1 && !vStopClosed(fx.stop), "one vBucket still streaming")
+	o0.End(models.DcpStreamEnd{VbID: 0}, nil)
+	quiesce()
+	_, n = fx.s.GetMetric()
+	assert(n == 0 && vStopClosed(fx.stop), "the client stops once every vBucket has ended for good")
+}
